@@ -16,7 +16,10 @@ RULE = ("plus an engine stage (20 000 distinct replies back to back through the 
         "arp, Ethernet and raw-IP link modes; frame families: valid reply, truncated, one length/size/type field set to a "
         "boundary value, IP-in-IP, Ethernet-in-Ethernet, fragments, other protocols/ethertypes/802.3 lengths, malformed "
         "IP/TCP options, IP total-length variants, ARP with every address-size pattern incl. uint8 wrap-around, random "
-        "bytes, plus fixed 'valid then header-less' sequences; evaluations = frames; non-trivial = the frame gets past the "
+        "bytes, ICMP error messages that quote the probe (complete quoted IPv4 header / fewer than 20 quoted bytes / cut inside "
+        "the quoted header), plus fixed 'valid then header-less' sequences and, for the icmp and udp scan methods, 40 histories "
+        "per link mode 'message with a complete quoted header, later messages of other senders with a short or cut quote' "
+        "(judged first by: every address in a record occurs in the record's own frame); evaluations = frames; non-trivial = the frame gets past the "
         "first header (not rejected as too short for Ethernet/IPv4); distinct by (configuration, frame bytes)")
 
 KIND = {"tcp": 0, "tcpsyn": 1, "icmp": 2, "udp": 2, "arp": 3}
@@ -103,6 +106,28 @@ def judge(kind, vpn, frame_hex, o):
     return None
 
 
+def foreign(kind, vpn, frames, i, o):
+    """The last sentence of the property on its own: every field of the record that frame i yields is taken from frame i.
+    Returns None or (key, reason) when the reported address occurs NOWHERE in the bytes of the frame that yielded the
+    record (phantom data); the reason names the earlier frame of the history the address is left over from, if any.
+    (Entailed by judge(): a record that fails here also fails the exact comparison with the frame's own fields.)"""
+    if o["k"] != 1 or len(o["ip"]) != 4 or min(o["ip"]) < 0:
+        return None
+    f = bytes.fromhex(frames[i])
+    a = bytes(o["ip"])
+    if expected_record(kind, vpn, f) is None or a in f:
+        return None
+    src = ""
+    for j in range(i - 1, -1, -1):
+        g = bytes.fromhex(frames[j])
+        if a in g:
+            src = "; these are bytes %d..%d of frame %d of the history (left over from that earlier frame)" % (g.index(a), g.index(a) + 3, j)
+            break
+    exp = expected_record(kind, vpn, f)
+    return ("leftover:" + kind, "frame %d has the header chain and yields a record, but the address in the record (%s) occurs nowhere in "
+                                "that frame (its own fields: %s)%s" % (i, o.get("iptext", ""), exp, src))
+
+
 # ------------------------------------------------------------------ model side
 def nf(o):
     def bl(b):
@@ -184,19 +209,27 @@ def first_violation(row):
     return None
 
 
-def minimise(ctx, row, i, key):
+def first_foreign(row):
+    for i, o in enumerate(row["obs"]):
+        why = foreign(row["kind"], row["vpn"], row["frames"], i, o)
+        if why:
+            return i, why
+    return None
+
+
+def minimise(ctx, row, i, key, finder=None):
     """Shortest sub-sequence ending in frame i that still shows a violation with the same key. Also returns a
     two-frame sequence in which frame i yields a DIFFERENT record than it yields alone (left-over state), if any."""
     fr = row["frames"]
     ring = row.get("ring", 0)
     # records are read after the whole sequence, so a later frame can also be what spoils the record of frame i
-    cands = ([([fr[i]], ring)] + [([fr[j], fr[i]], r) for j in range(i) for r in sorted({ring, min(ring, 1)})]
+    cands = ([([fr[i]], ring)] + [([fr[j], fr[i]], r) for j in range(i) for r in sorted({0, ring, min(ring, 1)})]
              + [([fr[i], fr[k]], ring) for k in range(i + 1, len(fr))] + [(fr[:i + 1], ring), (fr, ring)])
     rows = run_sequences(ctx, [{"kind": row["kind"], "vpn": row["vpn"], "ring": r, "frames": c} for c, r in cands], "min",
                          row.get("driver", "c06"))
     best, stale = None, None
     for r in rows:
-        v = first_violation(r)
+        v = (finder or first_violation)(r)
         if best is None and v and v[1][0] == key:
             best = (r, v[0], v[1])
         if (stale is None and rows and len(r["obs"]) == len(r["frames"]) > 1 and len(rows[0]["obs"]) == 1
@@ -206,8 +239,9 @@ def minimise(ctx, row, i, key):
     return (best or (row, i, None)), stale
 
 
-def report(ctx, row, i, why, seen):
+def report(ctx, row, i, why, seen, finder=None):
     key, reason = why
+    key0 = key
     if row.get("driver") == "c06cmd":
         key, reason = key + ":cmd", "[scan method as built by the `%s` command%s] %s" % (
             row["kind"], ", VPN mode" if row["vpn"] else "", reason)
@@ -215,7 +249,7 @@ def report(ctx, row, i, why, seen):
         seen[key] += 1
         return
     seen[key] = 1
-    (small, j, why2), stale = minimise(ctx, row, i, key)
+    (small, j, why2), stale = minimise(ctx, row, i, key0, finder)
     if why2:
         reason = why2[1]
     path = ctx.write_replay(key.replace(":", "-"), {
@@ -441,7 +475,8 @@ def run(ctx):
             j = json.load(open(p))
             seqs += j if isinstance(j, list) else [j]
         rows += run_sequences(ctx, seqs, "corpus")
-        args = ["-out", "cases.jsonl", "-seed", ctx.seed, "-n", 1900 if quick else 115000, "-big", 20 if quick else 600]
+        args = ["-out", "cases.jsonl", "-seed", ctx.seed, "-n", 1900 if quick else 115000, "-big", 20 if quick else 600,
+                "-quoted", 40 if quick else 3000]
         if not quick:
             args.append("-alltrunc")
         ok, _ = ctx.harness_run("c06", args, timeout=3000)
@@ -452,12 +487,18 @@ def run(ctx):
             ctx.skipped.append("command-built scan methods: hook command/verif_export_c06.go is not in the tree")
         elif ctx.harness_build("c06cmd"):
             ok, _ = ctx.harness_run("c06cmd", ["-out", "cmd.jsonl", "-seed", ctx.seed + 17, "-n", 500 if quick else 20000,
-                                               "-big", 4 if quick else 100], timeout=3000)
+                                               "-big", 4 if quick else 100, "-quoted", 15 if quick else 600], timeout=3000)
             if ok:
                 more = ctx.read_jsonl(os.path.join(ctx.work, "cmd.jsonl"))
                 for r in more:
                     r["driver"] = "c06cmd"
                 rows += more
+    # the property's last sentence on its own first (a value in a record that is nowhere in the record's own frame), then the
+    # exact comparison of every record with its frame's fields
+    for r in rows:
+        v = first_foreign(r)
+        if v:
+            report(ctx, r, v[0], v[1], seen, first_foreign)
     for r in rows:
         for i, o in enumerate(r["obs"]):
             cls = "%s%s/%s/%s%s/%s" % ("cmd:" if r.get("driver") == "c06cmd" else "", r["kind"], "raw-ip" if r["vpn"] else "eth", r["classes"][i], "+ring" if r.get("ring") else "",
@@ -502,6 +543,9 @@ def run(ctx):
                                 timeout=3000)
         if ok:
             for r in ctx.read_jsonl(os.path.join(ctx.work, "search.jsonl")):
+                v = first_foreign(r)
+                if v:
+                    report(ctx, r, v[0], v[1], seen, first_foreign)
                 v = first_violation(r)
                 if v:
                     report(ctx, r, v[0], v[1], seen)
@@ -548,7 +592,7 @@ def replay(ctx, path):
         return 1
     rc = 0
     for n, o in enumerate(rows[0]["obs"]):
-        why = judge(i["kind"], i["vpn"], i["frames"][n], o)
+        why = foreign(i["kind"], i["vpn"], i["frames"], n, o) or judge(i["kind"], i["vpn"], i["frames"][n], o)
         shown = {k: v for k, v in o.items() if v not in ("", [], 0, False) or k == "k"}
         print("frame %d (%s...): %s -> %s" % (n, i["frames"][n][:48], json.dumps(shown), why[1] if why else "ok"))
         if why:
